@@ -109,7 +109,7 @@ def gen_c17(rng):
 
 class Lane(LaneBase):
     PROP = 'C17'
-    THEOREMS = []
+    THEOREMS = 'auto'          # = the `#print axioms` lines of the audit file
     AUDIT = 'CG/Audit/C17.lean'
     DIFF_IS_FAILURE = False
     RULE = ('random lagged DAGs over 2-4 variables (not necessarily template-consistent), lags -4..2, with forced shares '
